@@ -14,6 +14,7 @@ type Exec struct {
 	assign map[string]int
 	asked  map[string]int // id -> domain size
 	order  []string
+	closed bool
 }
 
 var (
@@ -31,6 +32,9 @@ func Ask(id string, n int) int {
 	}
 	e.mu.Lock()
 	defer e.mu.Unlock()
+	if e.closed {
+		return 0 // a goroutine abandoned by the code under test answers after the execution ended
+	}
 	if _, ok := e.asked[id]; !ok {
 		e.asked[id] = n
 		e.order = append(e.order, id)
@@ -66,7 +70,14 @@ func Run(assign map[string]int, body func()) map[string]int {
 	curMu.Lock()
 	cur = nil
 	curMu.Unlock()
-	return e.asked
+	e.mu.Lock()
+	e.closed = true
+	res := make(map[string]int, len(e.asked))
+	for k, v := range e.asked {
+		res[k] = v
+	}
+	e.mu.Unlock()
+	return res
 }
 
 // Explore enumerates every assignment with at most `bound` non-default answers (bound < 0: unbounded).
